@@ -11,7 +11,8 @@
     parent's, else the all-units model) - restated from C15.R3, because a group that falls out is filled with 0 and reports only
     the counted votes of its reporting units.
 Lemma: R2 + C02.R2 give the aggregate floor and the zero-width interval of groups without nonreporting units (nonparametric).
-Not decided: finiteness (NaN from degenerate calibration sets) - numeric.
+ R6 gaussian bounds stay finite for a fitted scale of 0 (location-scale form mu + sd * ppf(q), restated from C15.R4): a NaN bound has no floor.
+Not decided: finiteness in general (NaN from degenerate calibration sets) - numeric.
 """
 from __future__ import annotations
 
@@ -214,3 +215,12 @@ def floor_alignment(ctx, rule, mb, F, gf, gs):
     # obligations are restated here because the floor depends on them.
     n5 = ctx.borrow("C15", "C15.R3.", "C03.R5.", "a group that falls out of the matching gets bounds at the counted votes of its reporting units only")
     ctx.sites("C03.R5", n5, 5, "matching-loop obligations restated from C15.R3")
+
+    # ---- R6 the gaussian bounds are finite whatever the fitted scale --------------------------------------------------
+    # maximum(NaN, counted) is NaN: a bound that is NaN has lost its floor (and is not a whole number). The one construct in the gaussian
+    # estimator that produces NaN from admissible settings is a scale handed to ppf() (scale 0: beta = 0, identical calibration scores) -
+    # C15.R4 asks for the location-scale form mu + sd * ppf(q) at the unit and the aggregate site; restated here because the floor of
+    # R2 / R3 depends on it.
+    n6 = ctx.borrow("C15", "C15.R4.unit-correction", "C03.R6.finite-unit", "NaN bounds: the floor at the counted votes is lost for every nonreporting unit")
+    n6 += ctx.borrow("C15", "C15.R4.aggregate-bound", "C03.R6.finite-aggregate", "NaN group bounds are filled with 0: the interval collapses to the counted votes of the reporting units")
+    ctx.sites("C03.R6", n6, 2, "location-scale obligations restated from C15.R4")
